@@ -108,11 +108,12 @@ def run(P: Program, rep: Report):
     if not tables:
         rep.not_decided.append("C15.R1: no module-level month table was recognised (the value table R2 decides the behaviour)")
     for name_, v_ in sorted(tables.items()):
-        if isinstance(v_, dict):
-            ok = list(v_.keys()) == ABBR and list(v_.values()) == FULL
-        else:
-            seq = list(v_)
-            ok = seq in (ABBR, FULL, [f.lower() for f in FULL], [a.upper() for a in ABBR]) or seq == [list(p_) for p_ in zip(ABBR, FULL)] or seq == list(zip(ABBR, FULL))
+        # aligned = the i-th row speaks of month i+1 in each of its spellings (abbreviation, full name, any letter case)
+        def month_no(w):
+            l = w.lower() if isinstance(w, str) else None
+            return ABBR.index(l) + 1 if l in ABBR and len(l) == 3 and l != "may" else [f.lower() for f in FULL].index(l) + 1 if l in [f.lower() for f in FULL] else None
+        rows = [(k_, x_) for k_, x_ in v_.items()] if isinstance(v_, dict) else [r_ if isinstance(r_, (list, tuple)) else (r_,) for r_ in v_]
+        ok = len(rows) == 12 and all(all(month_no(w) == i_ + 1 for w in r_) for i_, r_ in enumerate(rows))
         rep.check(ok, "C15.R1", f"tables:aligned:{name_}", mod.relpath,
                   f"the month table {name_} = {v_!r} is not the twelve months in calendar order (abbreviation = first three letters of the full name)")
     if tables:
